@@ -1207,6 +1207,7 @@ impl<T: Payload> World<T> {
                         drop(old);
                         self.check_window(mark, &live_serials, &[], "drop of the original arena", &mut out.viols);
                         self.resync_serials();
+                        self.obs_lookup(&mut out.viols);
                     }
                     Err(p) => self.unexpected_panic("C13", "clone", &p, out),
                 }
@@ -1254,6 +1255,8 @@ impl<T: Payload> World<T> {
                         drop(old);
                         self.check_window(mark, &live_serials, &[], "drop of the original arena", &mut out.viols);
                         self.resync_serials();
+                        // every id issued by the original must address the same node in the copy
+                        self.obs_lookup(&mut out.viols);
                     }
                     Err(p) => self.unexpected_panic("C13", "clone_from", &p, out),
                 }
